@@ -89,25 +89,51 @@ Theorem c18_gtf_value_escape_roundtrip : forall v, gtf_unescape false (gtf_escap
 Proof. exact gtf_value_escape_roundtrip. Qed.
 Print Assumptions c18_gtf_value_escape_roundtrip.
 
-(* PARTIAL: one `key 'value';` item, for values without ''' (the known class).  The full record
-   statement below is not proved in this revision (the IndexMap regrouping of repeated keys). *)
-Theorem c18_gtf_record_roundtrip_partial : forall k x rest, key_ok k -> ~ In 34 x ->
+(* one `key 'value';` item, for EVERY value (after the repair of parse_string, /repo 7a3d67e) *)
+Theorem c18_gtf_item_roundtrip : forall k x rest, key_ok k ->
   gtf_parse_field (gtf_item_text k x ++ rest) = Ok (k, gtf_escape x, consume_terminator (59 :: rest)).
 Proof. exact gtf_item_roundtrip. Qed.
-Print Assumptions c18_gtf_record_roundtrip_partial.
+Print Assumptions c18_gtf_item_roundtrip.
 
-Definition c18_gtf_record_roundtrip_full_statement : Prop :=
-  forall fmt prs r line,
-    Forall (fun kv => key_ok (fst kv) /\ value_items (snd kv) <> [] /\
-                      Forall (fun x => ~ In 34 x /\ ~ In 10 x) (value_items (snd kv))) (f_attrs r) ->
-    NoDup (map fst (f_attrs r)) ->
-    gtf_write fmt r = Ok line ->
-    exists l, gtf_read prs (line ++ [10]) = GRec l /\ fst (l_attrs l) = canon_attrs (f_attrs r).
+(* whole attribute column: distinct non-blank keys, 1..k items each, arbitrary bytes in the
+   values (double quotes and backslashes included); repeated keys are regrouped in order *)
+Theorem c18_gtf_attrs_roundtrip : forall a,
+  Forall (fun kv => key_ok (fst kv)) a -> Forall attr_items_ok a -> NoDup (map fst a) ->
+  gtf_attrs_parse (gtf_attrs_text a) = Ok (gtf_canon_attrs a).
+Proof. exact gtf_attrs_roundtrip. Qed.
+Print Assumptions c18_gtf_attrs_roundtrip.
 
-Theorem c18_gtf_quote_refuted : exists k x,
-  key_ok k /\ gtf_attrs_parse (gtf_attrs_text [(k, VString x)]) = Err InvalidData.
-Proof. exact gtf_quote_refuted. Qed.
-Print Assumptions c18_gtf_quote_refuted.
+(* whole record line through read_line / kind / bounds / lazy accessors *)
+Theorem c18_gtf_record_roundtrip : forall fmt prs r line,
+  gtf_wf fmt prs r -> gtf_write fmt r = Ok line ->
+  gtf_read prs (line ++ [10]) = GRec (gtf_expected r).
+Proof. exact gtf_record_roundtrip. Qed.
+Print Assumptions c18_gtf_record_roundtrip.
+
+Theorem c18_gtf_record_roundtrip_owned : forall fmt prs r line,
+  gtf_wf fmt prs r -> gtf_write fmt r = Ok line ->
+  exists l, gtf_read prs (line ++ [10]) = GRec l /\
+    gtf_owned l = Ok {| f_seqid := f_seqid r; f_source := f_source r; f_type := f_type r;
+                        f_start := f_start r; f_end := f_end r; f_score := f_score r;
+                        f_strand := f_strand r; f_phase := f_phase r;
+                        f_attrs := gtf_canon_attrs (f_attrs r) |}.
+Proof. exact gtf_record_roundtrip_owned. Qed.
+Print Assumptions c18_gtf_record_roundtrip_owned.
+
+(* non-vacuity: quotes, backslashes, a repeated key *)
+Definition gtf_demo2 : feature :=
+  {| f_seqid := [99]; f_source := [46]; f_type := [103]; f_start := 7; f_end := 9; f_score := None;
+     f_strand := SForward; f_phase := Some POne;
+     f_attrs := [([107], VArray [[97; 92; 98]; [59; 32; 34]; [97; 34; 98]]); ([106], VString [34])] |}.
+Example gtf_demo2_wf : gtf_wf (fun _ => []) (fun _ => None) gtf_demo2.
+Proof.
+  unfold gtf_wf, gtf_demo2, gtf_attr_ok, key_ok, u64_max. cbn.
+  repeat split; try lia; try discriminate; try (intros x E; discriminate);
+    try (intros [E|[]]; discriminate); try tauto.
+  - repeat constructor; cbn; try discriminate; try (intros [E|[E|[E|[]]]]; discriminate);
+      try (intros [E|[]]; discriminate).
+  - repeat constructor; cbn; try tauto; intros [E|[]]; discriminate.
+Qed.
 
 (* ---- BED ---- *)
 (* PARTIAL (structural core): the line splits back into exactly the standard columns followed by
